@@ -185,6 +185,10 @@ def cfg_case(draw):
             if how == 'unknown-prop':
                 lent['zzlim'] = 1
                 lent['$order'] = draw(st.sampled_from([['value', 'zzlim'], ['zzlim', 'value']]))
+            elif how == 'valid' and T2['k'] in ('double', 'int') and draw(st.booleans()):
+                # a datatype property configured on the limit parameter: it concerns the limit parameter, not its base parameter
+                lent['max'] = lent['value']
+                lent['$order'] = draw(st.sampled_from([['value', 'max'], ['max', 'value']]))
             cfg[p['name'] + '_max'] = lent
     # injected errors
     for _ in range(draw(st.sampled_from([0, 0, 0, 1, 1, 2, 3]))):
@@ -449,6 +453,15 @@ def check_cfg(ctx, case):
                             f'{name} = {info["value"]!r}: cache {cache!r}, readerror {pobj.readerror!r}, order {cfg[name].get("$order")}')
             else:
                 ctx.ok('configured-value-in-cache')
+    for p in cs['params']:
+        lent = cfg.get(p['name'] + '_max')
+        if p.get('limits') and isinstance(lent, dict) and 'max' in lent and p.get('export') is True:
+            T2 = plan[p['name']]['T2'] if p['name'] in plan else p['T']
+            ad = d['accessibles'].get('_' + p['name'])
+            if ad is not None and ad['datainfo'] != json.loads(json.dumps(specs.build(T2).export_datatype())):
+                ctx.finding(f'limit-configuration-changes-base-parameter:{T2["k"]}', case, f'{p["name"]}_max: {lent!r}; {p["name"]} described {ad["datainfo"]!r}, expected {T2!r}')
+            else:
+                ctx.ok('limit-configuration-separate')
     for p in cs['params']:
         lent = cfg.get(p['name'] + '_max')
         if p.get('limits') and isinstance(lent, dict) and 'value' in lent:
